@@ -38,3 +38,11 @@ package api
 //@   ensures-local err == nil ==> defined(subKeys) && len(subKeys) == 4 && (forall j int :: 0 <= j && j < 4 ==> KeyHolder(nodeLookup, ctx, subKeys[j].id) == nil || KeyHolder(nodeLookup, ctx, subKeys[j].id).ID == n.ID)
 //@   ensures-local err == nil ==> subKeys[0].id == n.Consensus.ID && subKeys[1].id == n.P2P.ID && subKeys[2].id == n.TLS.PubKey && subKeys[3].id == n.VRF.ID
 //@   note a node descriptor is accepted only if each of its four sub-keys is held by no registered node or by the node with the same ID (whatever that node's expiration or status); the lookup is the registry's NodeBySubKey (noeffect.txt pure:nodeBySubKey)
+
+// ---- node updates (C17): identity, owning entity and consensus key never change - also for an expired node ----
+
+//@ func VerifyNodeUpdate
+//@   props C17
+//@   requires currentNode != nil && newNode != nil
+//@   ensures err == nil ==> old(currentNode.ID == newNode.ID && currentNode.EntityID == newNode.EntityID && currentNode.Consensus.ID == newNode.Consensus.ID)
+//@   note a re-registration of an existing node is accepted only with the same node ID, the same owning entity and the same consensus key, whatever the node's expiration status (an expired node stays in the registry until it is removed at a later epoch, with its by-entity index entry and stake claim)
